@@ -372,9 +372,10 @@ def detect_spec_version(stix_dict):
                     detect_spec_version(obj)
                     for obj in stix_dict.get("objects", [])
                     # malformed members are dealt with when the bundle's
-                    # "objects" property is validated
+                    # "objects" property is validated; so are bundles
+                    # inside the bundle (no need to look into those)
                     if isinstance(obj, collections.abc.Mapping) and
-                    "type" in obj
+                    "type" in obj and obj["type"] != "bundle"
                 ),
                 default="2.1",
             ),
